@@ -488,7 +488,7 @@ def api_stage(ck, fw, corpus):
         for key, what in probs:
             if hooked and "msg-after-violation" in key:
                 continue          # the mixin handing on what its hooks were given: same violation, one key
-            ck.violation(f"recv-api/{api}/{key}", f"[{fw}] application uses the {api} receive API ({label}): {what}",
+            ck.violation(key if key.startswith("config/") else f"recv-api/{api}/{key}", f"[{fw}] application uses the {api} receive API ({label}): {what}",
                          {"fw": fw, "case": c, "observed": r, "oracle": "rfc_judge"}, found_input=True)
 
 
